@@ -178,11 +178,10 @@ fn check_adam(opts: &AdamOptions, initial: f64, target: f64, seq: &[f64], p: &mu
 }
 
 /// one-leapfrog acceptance statistic min(1, exp(E0 - E1)) from `pos` with momentum `mom` and step eps
-fn one_step_accept(scale: f64, pos: &[f64], mom: &[f64], eps: f64, transform_like_init: bool) -> Option<f64> {
+fn one_step_accept(scale: f64, pos: &[f64], mom: &[f64], eps: f64, backward: bool) -> Option<f64> {
     let (mut math, spy) = SpyMath::new(Dens::new(Target::DiagNormal { mu: vec![0.0, 0.0], sigma: vec![scale, scale * 3.0] }));
     let mm = nv::diag_mass_matrix_new(&mut math, false);
     let mut h = TransformedHamiltonian::new(&mut math, mm, KineticEnergyKind::Euclidean);
-    let _ = transform_like_init;
     // identity transformation (stds = 1, mean = 0)
     let ones = {
         let mut o = math.new_array();
@@ -197,7 +196,8 @@ fn one_step_accept(scale: f64, pos: &[f64], mom: &[f64], eps: f64, transform_lik
     h.initialize_trajectory(&mut math, &mut state, true, &mut rng).ok()?;
     *h.step_size_mut() = eps;
     let mut coll = NoCollector;
-    match h.leapfrog(&mut math, &state, Direction::Forward, 1.0, state.point().initial_energy(), 1000.0, &mut coll) {
+    let dir = if backward { Direction::Backward } else { Direction::Forward };
+    match h.leapfrog(&mut math, &state, dir, 1.0, state.point().initial_energy(), 1000.0, &mut coll) {
         LeapfrogResult::Ok(end) => {
             let diff = state.point().energy() - end.point().energy();
             Some(diff.min(0.0).exp())
@@ -212,7 +212,12 @@ struct NoCollector;
 impl<MM: Math, P: Point<MM>> nv::Collector<MM, P> for NoCollector {}
 
 fn check_search(scale: f64, initial: f64, target: f64, p: &mut Partial) {
-    let key = format!("search-scale{scale}-init{initial}-target{target}");
+    check_search_with(scale, initial, target, StepSizeAdaptMethod::DualAverage, p);
+    check_search_with(scale, initial, target, StepSizeAdaptMethod::Adam, p);
+}
+
+fn check_search_with(scale: f64, initial: f64, target: f64, method: StepSizeAdaptMethod, p: &mut Partial) {
+    let key = format!("search-scale{scale}-init{initial}-target{target}{}", if matches!(method, StepSizeAdaptMethod::DualAverage) { String::new() } else { format!("-{method:?}") });
     let replay = json!({"gaussian_scale": scale, "initial_step": initial, "target_accept": target});
     let pos = [0.7 * scale, -1.1 * scale * 3.0];
     let mom = [0.9, -0.4];
@@ -229,7 +234,8 @@ fn check_search(scale: f64, initial: f64, target: f64, p: &mut Partial) {
     let mut settings = StepSizeSettings::default();
     settings.initial_step = initial;
     settings.target_accept = target;
-    settings.adapt_options.method = StepSizeAdaptMethod::DualAverage;
+    settings.adapt_options.method = method;
+    settings.jitter = None;
     let mut strat = StepSizeStrategy::new(settings);
     // the search draws its momentum once
     spy.borrow_mut().gaussian_script.push_back(mom.to_vec());
@@ -243,6 +249,18 @@ fn check_search(scale: f64, initial: f64, target: f64, p: &mut Partial) {
     let eps = h.step_size();
     if !(eps.is_finite() && eps > 0.0) {
         p.violation(format!("C07/search-step-not-positive-finite/{key}"), format!("{eps}"), replay);
+        return;
+    }
+    // the estimator continues from the step the search found: installing its current iterate
+    // right after the search must not move the step size
+    strat.update_stepsize(&mut rng, &mut h, false);
+    let eps_after = h.step_size();
+    if !mc_core::rel_close(eps_after, eps, 1e-12, 0.0) {
+        p.violation(
+            format!("C07/estimator-does-not-restart-from-the-search-result/{key}"),
+            format!("search ended at {eps}, the estimator's first iterate is {eps_after}"),
+            replay,
+        );
         return;
     }
     let acc = |e: f64| one_step_accept(scale, &pos, &mom, e, false);
@@ -279,6 +297,11 @@ fn check_search(scale: f64, initial: f64, target: f64, p: &mut Partial) {
                     return;
                 }
             } else {
+                // the halving trials are taken backward in time from the same state (the search
+                // uses one direction flag for "halve" and for the integration direction)
+                let acc_b = |e: f64| one_step_accept(scale, &pos, &mom, e, true);
+                let a_e = acc_b(eps);
+                let acc = acc_b;
                 let crossed = a_e.map(|a| a >= target).unwrap_or(false);
                 let prev_ok = acc(eps * 2.0).map(|a| a < target).unwrap_or(true) || eps == initial;
                 if crossed && prev_ok {
@@ -361,9 +384,12 @@ pub fn run(tier: Tier, _replay: Option<String>) -> i32 {
         }
     }
     for e in -4..=4 {
-        for init in [1e-3, 0.1, 10.0] {
+        // absolute initial steps, and initial steps a little above the scale of the target (the
+        // regime in which the search halves without the first trial step diverging)
+        let scale = 10f64.powi(e);
+        for init in [1e-3, 0.1, 10.0, 1.7 * scale, 2.5 * scale, 6.0 * scale] {
             for target in [0.6, 0.8, 0.95] {
-                jobs.push(Job::Search(10f64.powi(e), init, target));
+                jobs.push(Job::Search(scale, init, target));
             }
         }
     }
